@@ -302,6 +302,15 @@ def run(t, budget=1.0):
                             "[%s] message %s: illegal step (%s) was not reported through the assertion handler: %s" % (cfg, L.name, sq.illegal, resp[:200]))
                 continue
             exp = " ".join(sq.exp + ["size_by_cursor=%d" % sq.cur, "BUF " + bytes(sq.buf).hex()])
+            # get_by_tag / set_by_tag with a cursor must behave exactly like the named cursor accessors
+            resp_tag = pc.call(entry, cfg, "cursortag" + line[len("cursor"):])
+            res.count()
+            if resp == "OK " + exp and resp_tag != resp:
+                a, b = exp.split(), (resp_tag[3:].split() if resp_tag.startswith("OK ") else [resp_tag[:80]])
+                j = next((i for i, (x, y) in enumerate(zip(a, b)) if x != y), min(len(a), len(b)))
+                pc.fail("cursor-bytag-mismatch", entry, {"cmd": "cursortag" + line[len("cursor"):], "config": cfg, "expect": "OK " + exp, "actual": resp_tag[:3000]},
+                        "[%s] message %s, steps `%s` through get_by_tag/set_by_tag with the cursor: token %d expected `%s` got `%s`" % (
+                            cfg, L.name, " ".join(sq.tok)[:200], j, " ".join(a[j:j + 3]), " ".join(b[j:j + 3])))
             if resp != "OK " + exp:
                 what = resp[:300]
                 sig = "cursor-%s" % resp.split(" ")[0].lower()
